@@ -18,6 +18,13 @@ def task(rule_name):
     rules = load_rules()
     names = [n for n, r in rule_mod.node_mappings.items() if r == rule_name]
     out = []
+    if not names:
+        from contracts.c01_children import Spec
+        sp = Spec(rule_name, rules[rule_name][1], rule_name in MIXED)
+        if sp.dlo.delta != sp.dhi.delta or sp.dlo.accepting != sp.dhi.accepting:
+            # no element name maps to this rule, so validate.node/tree never use it, and its language has the gap the property leaves
+            # unspecified (L_lo != L_hi): mode agreement cannot be phrased over one predicate; C01 still covers its child matching
+            return out
     variants = []
     if [n for n in names if n != "metadata"] or not names:
         variants.append((False, [n for n in names if n != "metadata"]))
@@ -110,8 +117,8 @@ def bounded(tier, seed):
                 "palette {None, 'x', '', 'nan', lone surrogate} x attribute palette; plus adversarial mutations (drop, duplicate, swap, rename, "
                 "corrupt content/attributes) of tests/data/eml.xml; validate.tree in both modes")
     b.rule = "a case is one tree; non-trivial = more than one node or non-default content/attributes"
-    names = ["eml", "dataset", "title", "metadata", "para", "westBoundingCoordinate", "references", "~unknown~"]
-    contents = [None, "x", "", "nan", "a\ud800b", "181"]
+    names = ["eml", "dataset", "title", "metadata", "para", "westBoundingCoordinate", "references", "url", "~unknown~", "Unknown"]
+    contents = [None, "x", "", "nan", "a\ud800b", "181", "http://a/\ud800"]
     attrs = [{}, {"id": "1"}, {"~bad~": "v"}, {"packageId": "p", "system": "s"}]
     maxn = 2 if tier == "quick" else 3
     for n in range(1, maxn + 1):
